@@ -49,8 +49,15 @@ def search(rep: C.Report, tier: str, broken):
     from WallGo.polynomial import Polynomial
     r = C.rng("C09search")
     Ms = (40, 80) if tier == "quick" else (40, 50, 70, 100, 140)
-    for kind in ("toy1", "toy2"):
-        objs = {M: EC.make_eom(kind, M=M) for M in Ms}
+    # the same potentials written in other units as well (every dimensionful number multiplied by u): field gradients of order 1e-9 … 1e+9
+    variants = [("toy1", {}), ("toy2", {}), ("toy1", dict(u=1e-5))] if tier == "quick" else \
+        [("toy1", {}), ("toy2", {}), ("toy1", dict(u=1e-5)), ("toy1", dict(u=1e-7)), ("toy2", dict(u=1e-4)), ("toy1", dict(u=3e3))]
+    for kind, params_ in variants:
+        try:
+            objs = {M: EC.make_eom(kind, params_, M=M) for M in Ms}
+        except Exception as ex:  # noqa: BLE001
+            rep.count(f"model construction raised {type(ex).__name__} for {kind} {params_}")
+            continue
         th = objs[Ms[0]]["thermo"]
         Tn = th.Tnucl
         nf = objs[Ms[0]]["eom"].nbrFields
@@ -61,7 +68,7 @@ def search(rep: C.Report, tier: str, broken):
             off = np.array([0.0] + [r.uniform(-2, 2) for _ in range(nf - 1)])
             vmid = -r.uniform(0.2, 0.6)
             errs = {}
-            info = {"model": kind, "T": T, "widths_Tn": (W * Tn).tolist(), "offsets": off.tolist(), "velocityMid": vmid}
+            info = {"model": kind, "params": params_, "T": T, "widths_Tn": (W * Tn).tolist(), "offsets": off.tolist(), "velocityMid": vmid}
             thick = float(np.max(W)) * r.uniform(0.8, 1.5)
             tin, tout = (thick * r.uniform(4, 7), thick * r.uniform(1.3, 2.2))[::r.choice((1, -1))]
             centre = r.uniform(-0.5, 0.5) * thick
@@ -96,12 +103,12 @@ def search(rep: C.Report, tier: str, broken):
                                                               multiplier=1.0)
                 info[f"M={M}"]["unequal_tails"] = {"tailInside": tin, "tailOutside": tout, "thickness": thick, "pressure": float(p3)}
                 errs[M] = (abs(p2 - want) / sc, abs(p - want) / sc, abs(p3 - want) / sc)
-                rep.case(key=(kind, M, round(T, 3), round(float(W[0] * Tn), 1)), sample=dict(info) if len(rep.samples) < 3 and M == Ms[-1] else None)
-                rep.count(f"pressure {kind} M={M}")
+                rep.case(key=(kind, str(params_), M, round(T / Tn, 3), round(float(W[0] * Tn), 1)), sample=dict(info) if len(rep.samples) < 3 and M == Ms[-1] else None)
+                rep.count(f"pressure {kind}{'' if not params_ else ' ' + str(params_)} M={M}")
             e_first, e_last = max(errs[Ms[0]]), max(errs[Ms[-1]])
             # discretisation error: small at M=40 for shapes inside the property's box, and falling spectrally with M
             finite = all(np.isfinite(x) for m_ in Ms for x in errs[m_])
             if not finite or e_first > 2e-2 or e_last > max(1e-6, 0.2 * e_first) or e_last > 1e-4:
                 rep.violation("wall pressure in a uniform plasma differs from V(phi_low) - V(phi_high) (beyond the spectrally "
                               "decreasing discretisation error)", dict(info, rel_errors_by_M={m: list(map(float, errs[m])) for m in Ms}),
-                              finding_key=f"C09:pressure:{kind}")
+                              finding_key=f"C09:pressure:{kind}" + ("" if not params_ else ":units"))
